@@ -14,9 +14,11 @@
 (*   - the header mask is keyed with the destination's node id, so a       *)
 (*     packet unmasks to garbage at any other node;                        *)
 (*   - a packet modified in flight carries a tamper class t:               *)
-(*     "iv" masking IV, "nonce" the nonce in the static header, "src" the  *)
-(*     source id in the authdata, "idn" the id-nonce of a WHOAREYOU,       *)
-(*     "sig" the id-signature of a handshake, "ct" message ciphertext/tag. *)
+(*     "iv" masking IV, "ver" the (high byte of the) version field, which  *)
+(*     only the authentication of the header protects, "nonce" the nonce   *)
+(*     in the static header, "src" the source id in the authdata, "idn"    *)
+(*     the id-nonce of a WHOAREYOU, "sig" the id-signature of a handshake, *)
+(*     "ct" message ciphertext/tag.                                        *)
 (*                                                                         *)
 (* One action per codec call: SendMsg/SendWhoareyou/SendHandshake are      *)
 (* Codec.Encode in its three modes, Deliver is Codec.Decode, Reset is a    *)
@@ -51,10 +53,10 @@ vars == <<sess, chal, unk, got, knows, wire, fresh, sids, cids, log>>
 Pkt(k, src, dst, sid, init, cid, rs, m) ==
   [k |-> k, src |-> src, dst |-> dst, sid |-> sid, init |-> init, cid |-> cid, rs |-> rs, m |-> m, t |-> "", orig |-> 0]
 
-TamperClasses(k) == CASE k = "rand" -> {"iv", "nonce", "src", "ct"}
-                      [] k = "msg"  -> {"iv", "nonce", "src", "ct"}
-                      [] k = "way"  -> {"iv", "nonce", "idn"}
-                      [] k = "hs"   -> {"iv", "nonce", "src", "sig", "ct"}
+TamperClasses(k) == CASE k = "rand" -> {"iv", "ver", "nonce", "src", "ct"}
+                      [] k = "msg"  -> {"iv", "ver", "nonce", "src", "ct"}
+                      [] k = "way"  -> {"iv", "ver", "nonce", "idn"}
+                      [] k = "hs"   -> {"iv", "ver", "nonce", "src", "sig", "ct"}
 
 NoSess == [sid |-> 0, init |-> FALSE]          \* no session
 NoChal == [cid |-> 0, rs |-> FALSE]            \* no challenge
@@ -113,22 +115,24 @@ Readable(to, p) == /\ p.t = "" /\ sess[to][p.src].sid # 0
 HsAccepted(to, p) == /\ p.t = "" /\ chal[to][p.src].cid # 0 /\ chal[to][p.src].cid = p.cid
                      /\ (chal[to][p.src].rs \/ p.rs)         \* a record is at hand
 
-(* what Decode reports for packet p at node `to` *)
-Outcome(to, p) ==
+(* What Decode reports for packet p at node `to` when it arrives from the network      *)
+(* address of node `from` (the adversary can spoof the source address; sessions and     *)
+(* pending challenges are bound to node id AND address).                                *)
+Outcome(to, p, from) ==
   IF p.dst # to \/ p.t = "iv" THEN "err"                     \* header does not unmask
   ELSE CASE p.k = "rand" -> "unknown"
-         [] p.k = "msg"  -> IF p.t # "src" /\ Readable(to, p) THEN "msg" ELSE "unknown"
+         [] p.k = "msg"  -> IF p.t # "src" /\ from = p.src /\ Readable(to, p) THEN "msg" ELSE "unknown"
          [] p.k = "way"  -> "way"
-         [] p.k = "hs"   -> IF p.t # "src" /\ HsAccepted(to, p) THEN "hsmsg" ELSE "err"
+         [] p.k = "hs"   -> IF p.t # "src" /\ from = p.src /\ HsAccepted(to, p) THEN "hsmsg" ELSE "err"
 
-Deliver(i, to) ==
+Deliver(i, to, from) ==
   /\ i \in 1..Len(wire)
-  /\ LET p == wire[i]  o == Outcome(to, p) IN
-     /\ unk' = IF o = "unknown" /\ p.t # "src" THEN [unk EXCEPT ![to][p.src] = i] ELSE unk
-     /\ got' = IF o = "way" THEN [got EXCEPT ![to][p.src] = [cid |-> p.cid, rs |-> p.rs]] ELSE got
+  /\ LET p == wire[i]  o == Outcome(to, p, from)  honest == (from = p.src /\ p.t # "src") IN
+     /\ unk' = IF o = "unknown" /\ honest THEN [unk EXCEPT ![to][p.src] = i] ELSE unk
+     /\ got' = IF o = "way" /\ from = p.src THEN [got EXCEPT ![to][p.src] = [cid |-> p.cid, rs |-> p.rs]] ELSE got
      /\ sess' = IF o = "hsmsg" THEN [sess EXCEPT ![to][p.src] = [sid |-> p.sid, init |-> FALSE]] ELSE sess
      (* any handshake packet that gets as far as the challenge lookup consumes the challenge *)
-     /\ chal' = IF p.k = "hs" /\ p.dst = to /\ p.t \notin {"iv", "src"} THEN [chal EXCEPT ![to][p.src] = NoChal] ELSE chal
+     /\ chal' = IF p.k = "hs" /\ p.dst = to /\ p.t # "iv" /\ honest THEN [chal EXCEPT ![to][p.src] = NoChal] ELSE chal
      /\ knows' = IF o = "hsmsg" THEN [knows EXCEPT ![to][p.src] = TRUE] ELSE knows
      /\ log' = IF o \in {"msg", "hsmsg"} THEN log \cup {[to |-> to, i |-> i, cur |-> sess'[to][p.src].sid]} ELSE log
   /\ UNCHANGED <<wire, fresh, sids, cids>>
@@ -149,8 +153,8 @@ Expire(n) ==
 
 Next == \/ \E n, p \in Node, m \in Msgs : Len(wire) < MaxWire /\ (SendMsg(n, p, m) \/ SendHandshake(n, p, m))
         \/ \E n, p \in Node : Len(wire) < MaxWire /\ SendWhoareyou(n, p)
-        \/ \E i \in 1..Len(wire), t \in {"iv", "nonce", "src", "idn", "sig", "ct"} : Len(wire) < MaxWire /\ Tamper(i, t)
-        \/ \E i \in 1..Len(wire), to \in Node : Deliver(i, to)
+        \/ \E i \in 1..Len(wire), t \in {"iv", "ver", "nonce", "src", "idn", "sig", "ct"} : Len(wire) < MaxWire /\ Tamper(i, t)
+        \/ \E i \in 1..Len(wire), to, from \in Node : Deliver(i, to, from)
         \/ \E n \in Node : Reset(n) \/ Expire(n)
 
 Spec == Init /\ [][Next]_vars
